@@ -1,9 +1,12 @@
 ------------------------------ MODULE MC_EvidenceNet ------------------------------
 (***************************************************************************************)
-(* End to end: correct nodes (each with the pool of Evidence.tla), one Byzantine       *)
-(* validator that equivocates, timely delivery.  One step = one height of the chain:   *)
+(* End to end: correct nodes (each with the pool of Evidence.tla), Byzantine           *)
+(* validators that equivocate (one offender per event; several events per behaviour:   *)
+(* the second equivocation comes after the first was reported / committed, at the same *)
+(* or another height, by the same or another offender), timely delivery.  One step =   *)
+(* one height of the chain:                                                            *)
 (*                                                                                     *)
-(*   1. (optional) the Byzantine validator Byz shows conflicting votes to a set of     *)
+(*   1. (optional) a Byzantine validator z shows conflicting votes to a set of         *)
 (*      observers while they wait in the NewHeight step of height hh:                  *)
 (*        kind 1 "cur"  : two votes of height hh, round r, type t   (consensus/state.go *)
 (*                        tryAddVote -> cs.Votes)                                       *)
@@ -11,7 +14,7 @@
 (*                        cs.LastCommit)                                               *)
 (*        kind 3 "again": the votes of the previous event of kind 1/t=2 once more, now *)
 (*                        as late precommits (replay)                                  *)
-(*        kind 4 "priv" : like kind 1, but before that Byz hands the observers (and    *)
+(*        kind 4 "priv" : like kind 1, but before that Priv hands the observers (and   *)
 (*                        nobody else) its own precommit of height hh-1 with an early  *)
 (*                        time stamp, so that their last-commit vote sets differ from  *)
 (*                        the proposer's.  Irrelevant here - the evidence states the   *)
@@ -19,9 +22,9 @@
 (*                        not in consensus/state.go, which takes the median of the     *)
 (*                        observer's OWN last commit.  Run with a genesis in the past  *)
 (*                        (wall-clock vote times), where those medians differ.         *)
-(*        kind 5 "bprop": Byz, as a proposer, offers every correct node a block that is *)
-(*                        fine except for its evidence list (variant: 1 a correct      *)
-(*                        validator framed with votes signed by Byz, 2 evidence that   *)
+(*        kind 5 "bprop": Priv, as a proposer, offers every correct node a block that  *)
+(*                        is fine except for its evidence list (variant: 1 a correct   *)
+(*                        validator framed with votes signed by Priv, 2 evidence that  *)
 (*                        is in the chain already, 3 a real equivocation nobody saw,   *)
 (*                        4 that one twice, 5 that one with a junk signature); the     *)
 (*                        nodes validate it (cstate.validateBlock -> Check); it is not *)
@@ -46,7 +49,9 @@
 EXTENDS Evidence, Json
 
 CONSTANTS Nodes,      \* correct validators running nodes
-          Byz,        \* the equivocating validator (its key is held by the environment)
+          Byzs,       \* the validators that may equivocate (their keys are held by the environment); an offender
+                      \* must be in the set of the evidence height
+          Priv,       \* the Byzantine validator that plays the private precommit (kind 4) and the proposer (kind 5)
           Prop,       \* Prop[h] = the correct validator whose proposal is decided at height h under timely
                       \* delivery (first round of height h whose proposer is correct; from the real rotation)
           MaxH,       \* heights decided per behaviour
@@ -58,25 +63,26 @@ CONSTANTS Nodes,      \* correct validators running nodes
 VARIABLES hh, pool, chain, born, last, hist, nev, nrs
 vars == <<hh, pool, chain, born, last, hist, nev, nrs>>
 
-NoEv == <<0, 0, 0, {}>>
+NoEv == <<0, 0, 0, {}, 0>>      \* event = <<kind, round, type, observers, offender>>
 
 (* the evidence an observer reports for an event at height h (kind, round, type): blocks 2/3 for prevotes, *)
 (* nil/2 for precommits; round 0 stands for "the commit round of that height" (resolved by the driver)      *)
 (* (a late event uses nil/3 so that it is a different pair of votes than an earlier event of that height)  *)
-EvOf(h, r, t) == IF t = 1 THEN Dve(Byz, h, r, 1, 2, 3) ELSE Dve(Byz, h, r, 2, 0, 2)
+EvOf(z, h, r, t) == IF t = 1 THEN Dve(z, h, r, 1, 2, 3) ELSE Dve(z, h, r, 2, 0, 2)
 EventEvidence(ev, h) ==
-  CASE ev[1] \in {1, 4} -> EvOf(h, ev[2], ev[3])
-    [] ev[1] = 2 -> Dve(Byz, h - 1, 0, 2, 0, 3)
-    [] ev[1] = 3 -> EvOf(h - 1, last.ev[2], 2)
+  CASE ev[1] \in {1, 4} -> EvOf(ev[5], h, ev[2], ev[3])
+    [] ev[1] = 2 -> Dve(ev[5], h - 1, 0, 2, 0, 3)
+    [] ev[1] = 3 -> EvOf(ev[5], h - 1, last.ev[2], 2)
+Off(h) == {z \in Byzs : h \in 1..Top /\ Power[h][z] > 0}
 
 (* the evidence in the chain so far, in order *)
 RECURSIVE Flat(_, _)
 Flat(c, j) == IF j > Len(c) THEN <<>> ELSE c[j].l \o Flat(c, j + 1)
 ChainEvidence == Flat(chain, 1)
 (* the evidence lists of a Byzantine proposal at height h *)
-Fresh(h) == Dve(Byz, h - 1, 2, 1, 2, 4)
+Fresh(h) == Dve(Priv, h - 1, 2, 1, 2, 4)
 ByzList(v, h) ==
-  CASE v = 1 -> <<[Dve(CHOOSE n \in Nodes : TRUE, h - 1, 1, 1, 2, 3) EXCEPT !.a.sig = Byz, !.b.sig = Byz]>>
+  CASE v = 1 -> <<[Dve(CHOOSE n \in Nodes : TRUE, h - 1, 1, 1, 2, 3) EXCEPT !.a.sig = Priv, !.b.sig = Priv]>>
     [] v = 2 -> <<ChainEvidence[1]>>
     [] v = 3 -> <<Fresh(h)>>
     [] v = 4 -> <<Fresh(h), Fresh(h)>>
@@ -84,12 +90,13 @@ ByzList(v, h) ==
 
 Events(h) == {NoEv} \cup
   (IF h \in EqHeights /\ nev < MaxEvents
-   THEN (IF 1 \in Kinds THEN {<<1, r, t, O>> : r \in {1, 2}, t \in {1, 2}, O \in ObsSets} ELSE {})
-        \cup (IF 2 \in Kinds /\ h >= 2 THEN {<<2, 0, 2, O>> : O \in ObsSets} ELSE {})
+   THEN (IF 1 \in Kinds THEN {<<1, r, t, O, z>> : r \in {1, 2}, t \in {1, 2}, O \in ObsSets, z \in Off(h)} ELSE {})
+        \cup (IF 2 \in Kinds /\ h >= 2 THEN {<<2, 0, 2, O, z>> : O \in ObsSets, z \in Off(h - 1)} ELSE {})
         \cup (IF 3 \in Kinds /\ h >= 2 /\ last.h = h - 1 /\ last.ev[1] = 1 /\ last.ev[3] = 2 /\ last.ev[2] = 1
-              THEN {<<3, 0, 2, last.ev[4]>>} ELSE {})
-        \cup (IF 4 \in Kinds /\ h >= 2 THEN {<<4, 1, t, O>> : t \in {1, 2}, O \in ObsSets} ELSE {})
-        \cup (IF 5 \in Kinds /\ h >= 2 THEN {<<5, v, 0, {}>> : v \in (IF Len(ChainEvidence) > 0 THEN 1..5 ELSE {1, 3, 4, 5})} ELSE {})
+              THEN {<<3, 0, 2, last.ev[4], last.ev[5]>>} ELSE {})
+        \cup (IF 4 \in Kinds /\ h >= 2 THEN {<<4, 1, t, O, z>> : t \in {1, 2}, O \in ObsSets, z \in Off(h)} ELSE {})
+        \cup (IF 5 \in Kinds /\ h >= 2 /\ Priv \in Off(h - 1)
+              THEN {<<5, v, 0, {}, Priv>> : v \in (IF Len(ChainEvidence) > 0 THEN 1..5 ELSE {1, 3, 4, 5})} ELSE {})
    ELSE {})
 
 Init == /\ hh = 1 /\ pool = [n \in Nodes |-> EmptyPool(0)] /\ chain = <<>> /\ born = {}
@@ -131,7 +138,7 @@ Height(ev, rs) ==
      /\ last' = IF ev = NoEv THEN last ELSE [ev |-> ev, h |-> hh]
      /\ nev' = IF ev = NoEv THEN nev ELSE nev + 1
      /\ nrs' = IF rs = 0 THEN nrs ELSE nrs + 1
-     /\ hist' = Append(hist, [ev  |-> <<ev[1], ev[2], ev[3], ev[4]>>, rs |-> rs,
+     /\ hist' = Append(hist, [ev  |-> <<ev[1], ev[2], ev[3], ev[4], ev[5]>>, rs |-> rs, pv |-> Priv,
                               e   |-> IF isEq THEN CompactEv(e) ELSE <<>>,
                               bl  |-> [k \in 1..Len(bl) |-> CompactEv(bl[k])],
                               br  |-> [n \in Nodes |-> IF ev[1] = 5 THEN <<B[n].res, B[n].why>> ELSE <<"-", "-">>],
